@@ -31,6 +31,7 @@
 
 #include "process.h"            /* struct process */
 #include "signals.h"            /* halt() */
+#include "verif.h"              /* verification hooks (off by default) */
 
 
 /*
@@ -600,6 +601,9 @@ copy(void)
   out_slots = 2;
   total_out_slots = 2;
   in_granul = 65536;
+#ifdef KJN_LBZIP2_VERIF
+  verif_limits(2, &in_granul, NULL);
+#endif
 
   process = &pseudo_process;
   init_io();
@@ -656,6 +660,9 @@ work(void)
   }
 
   set_memory_constraints();
+#ifdef KJN_LBZIP2_VERIF
+  verif_limits(decompress ? 1 : 0, &in_granul, &out_granul);
+#endif
 
   if (!decompress) {
     schedule(&compression);
